@@ -65,7 +65,8 @@ def variants(op, sizes):
     return out
 
 
-def build(rng, op, sizes, den):
+def build(rng, op, sizes, den, r=0):
+    # r: repetition index; the edge-case operands are placed deterministically so that every seed contains them
     nx, ny, nz = sizes.get("X"), sizes.get("Y"), sizes.get("Z")
     f = lambda cs: sum((flat_sx(c) for c in cs), [])
     tb = lambda n, m: table(rng, "f64", n, m, "grid")
@@ -83,7 +84,19 @@ def build(rng, op, sizes, den):
         return flat_sx(G.grid_simplex(rng, nx, den, kind())) + flat_sx(G.grid_simplex(rng, nx, den, kind()))
     if op.startswith("fold:"):
         return sum((flat_op(G.grid_opinion(rng, nx, den)) for _ in range(3)), [])
-    if op in ("mbr", "deduce", "deduce_with", "abduce") and rng.chance(1, 4):
+    if op in ("mbr", "deduce", "deduce_with", "abduce") and r % 4 == 1:
+        # tables without a marginal base rate (all conditionals vacuous; informative only at zero base rates): every
+        # receiver and family must report the absence alike
+        from .c08 import special_table
+        ax, cs, _ = special_table(rng, "f64", nx, ny, den, 0 if op == "abduce" else rng.below(2))
+        if op == "mbr":
+            return ax + f(cs)
+        if op == "abduce":
+            return flat_sx(G.grid_simplex(rng, ny, den)) + f(cs) + G.grid_dist(rng, nx, den, True)
+        w = G.grid_opinion(rng, nx, den)
+        base = list(w[0]) + [w[1]] + ax + f(cs)
+        return base if op == "deduce" else base + G.grid_dist(rng, ny, den, True)
+    if op in ("mbr", "deduce", "deduce_with", "abduce") and r % 4 == 2:
         # tiny but positive total weight (exact dyadic values, the same for both element types): below the single-
         # precision epsilon, far above the double-precision one
         k = rng.below(nx)
@@ -115,7 +128,7 @@ def build(rng, op, sizes, den):
         return flat_sx(G.grid_simplex(rng, ny, den)) + f(tb(nx, ny)) + G.grid_dist(rng, nx, den, True) + G.grid_dist(rng, ny, den, True)
     if op == "abduce":
         return flat_sx(G.grid_simplex(rng, ny, den)) + f(tb(nx, ny)) + G.grid_dist(rng, nx, den, True)
-    if op in ("prod2", "prod3") and rng.chance(1, 3):
+    if op in ("prod2", "prod3") and r % 3 == 1:
         # tiny positive base-rate entries (exact dyadic operands, used for both element types): the joint base rate
         # of the cell that bounds the uncertainty lies around or below machine epsilon but is not zero
         e = rng.choice([8, 9, 12, 18, 20] if op == "prod3" else [12, 13, 24, 27, 30])
@@ -145,7 +158,7 @@ def gen(rng, tier):
     gid = 0
     for op, sizes in plan:
         for r in range((reps if op != "merge" else 1) * (3 if op in ("prod2", "prod3") else 1)):
-            nums = build(rng, op, sizes, rng.choice([8, 16, 64]))
+            nums = build(rng, op, sizes, rng.choice([8, 16, 64]), r)
             gid += 1
             vs = variants(op, sizes)
             if tier == "quick" and len(vs) > 6:
